@@ -862,6 +862,23 @@ fn decode_int(data: &[u8]) -> (usize, &[u8]) {
 
 // Accessors for verification harnesses (compiled only with --cfg sux_verif)
 #[cfg(sux_verif)]
+/// Exposes the private variable-byte code: returns (encoding of `value`,
+/// `encode_int_len(value)`, result of decoding the encoding followed by `tail`).
+pub fn verif_vbyte(value: usize, tail: &[u8]) -> (Vec<u8>, usize, usize, usize) {
+    let mut data = Vec::new();
+    encode_int(value, &mut data);
+    let len = encode_int_len(value);
+    let code_len = data.len();
+    data.extend_from_slice(tail);
+    let (decoded, rest_len) = {
+        let (decoded, rest) = decode_int(&data);
+        (decoded, rest.len())
+    };
+    data.truncate(code_len);
+    (data, len, decoded, rest_len)
+}
+
+#[cfg(sux_verif)]
 impl<D: AsRef<[u8]>, P: AsRef<[usize]>> RearCodedList<D, P> {
     /// Returns (k, len, is_sorted, data, pointers).
     pub fn verif_parts(&self) -> (usize, usize, bool, &[u8], &[usize]) {
